@@ -306,9 +306,15 @@ def check_mg(f, e0, eps):
     from smrt.emmodel.sce_common import permittivity_hashin_shtrikman
     out = []
     a = complex(m.maxwell_garnett_for_spheres(f, e0, eps))
-    for name, v in [("general-default", m.maxwell_garnett(f, e0, eps)),
-                    ("general-depol-1/3", m.maxwell_garnett(f, e0, eps, depol_xyz=ISO)),
-                    ("hashin-shtrikman", permittivity_hashin_shtrikman(f, e0, eps))]:
+    for name, fn_ in [("general-default", lambda: m.maxwell_garnett(f, e0, eps)),
+                      ("general-depol-1/3", lambda: m.maxwell_garnett(f, e0, eps, depol_xyz=ISO)),
+                      ("hashin-shtrikman", lambda: permittivity_hashin_shtrikman(f, e0, eps))]:
+        try:
+            v = fn_()
+        except Exception as e:  # noqa   (an exception on admissible inputs is a finding, not a crash of the oracle)
+            key = ("homogeneous:" + name) if complex(e0) == complex(eps) else ("mg:raises:" + name)
+            out.append((key, f"{name}({f}, {e0}, {eps}) raises {type(e).__name__}: {e}", type(e).__name__, a))
+            continue
         if rel(a, complex(v)) > RT:
             out.append(("mg:spheres-vs-" + name, f"maxwell_garnett_for_spheres={a} but {name}={complex(v)} at f={f}, e0={e0}, eps={eps}", complex(v), a))
     if not np.array_equal(ISO, np.array([1 / 3, 1 / 3, 1 / 3])):
